@@ -24,7 +24,7 @@ EXPLANATION = (
 ASSUMPTIONS = [
     "the model of render_toc_ul mirrors the Python while/else loop by hand; tied by the skeleton comparison and by the "
     "correspondence run (all level sequences up to length 5 quick / 7 thorough, byte-for-byte)",
-    "uniqueness of ids additionally relies on str(int) being injective",
+    "str(int) being injective is proved for the MODEL of str(int) (PyStr.str_of_Z, Proofs/DecimalProofs.v); that CPython's str(int) is that function is validated by the correspondence run (ids compared byte for byte), not proved",
     "entry text (striptags of the rendered heading) is checked on the implementation by the oracle, not proved"]
 TRUSTED = ["tools/skeletons/*.txt (committed control skeletons)"]
 
